@@ -59,6 +59,9 @@ def mk(cid, hist, probe_idx, root):
     for ev, ctxno in hist:
         lines += event_lines(ev, ctxno)
     lines += ["X 3 0", "PB 3 " + hx(PROBES[probe_idx]), "D 3"]
+    # the same probe once more, into a context of the history, through the stream entry point (cfg_parse_fp): return code,
+    # values and diagnostics - the name they carry included - are those of a stream, whatever that context parsed before
+    lines += ["PS 0 " + hx(PROBES[probe_idx])]
     return Case(cid, lines, {"hist": hist, "probe": probe_idx})
 
 
@@ -116,22 +119,29 @@ def project(lines, case):
 BASE = {}
 
 
-def _tail(il):
+def _tail(il, with_stream_probe=True):
     idx = [i for i, l in enumerate(il) if l.startswith("R ")]
     # the probe block: X 3 (R), PB 3 (R ...), dump
-    if len(idx) < 2:
+    if not with_stream_probe:
+        return il[idx[-2]:] if len(idx) >= 2 else None
+    if len(idx) < 3:
         return None
-    # find the R of "X 3": the second-to-last R line
-    return il[idx[-2]:]
+    # find the R of "X 3": the third-to-last R line; the last one belongs to the stream probe into context 0
+    return il[idx[-3]:idx[-1]]
 
 
 def oracle(case, il, ctx):
     hz = [l for l in il if l.startswith("H ")]
     if hz:
         return "hazard: " + hz[0]
-    t = _tail(il)
+    t = _tail(il, any(l.startswith("PS ") for l in case.lines))
     if t is None:
         return "malformed output"
+    if "hist" in case.meta and not case.meta.get("nested"):
+        last = max(i for i, l in enumerate(il) if l.startswith("R "))
+        for l in il[last:]:
+            if l.startswith("G ") and l.split()[1] != hx("FILE"):
+                return "a diagnostic of cfg_parse_fp() on a stream names %r: a name left behind by an earlier parse" % l.split()[1]
     if "hist" not in case.meta:       # a corpus case: the model comparison alone decides
         return None
     if not case.meta["hist"]:
